@@ -235,8 +235,8 @@ pub fn def() -> PropertyDef {
 		rule: "Certificates generated by rcgen over the C02 space restricted to what import documents as supported (names with distinct attribute types, OID arcs < 2^32; Other EKUs, custom extensions, CRL DPs and AKI may be present but are not compared), self- and issuer-signed, imported through from_ca_cert_der and _pem; plus CA certificates with the same fields assembled by the harness encoder, signed and pre-accepted by OpenSSL. Oracle: field-by-field equality with the generating parameters (name, IsCa/path length, KU set, standard EKU set, SAN list, name-constraint subtrees incl. CIDR address/mask and directory names, serial as integer, validity truncated to seconds, SKI captured as PreSpecified), PEM = DER, and re-issuing reproduces the fields. Non-trivial = >= 2 compared extension fields set.",
 		assumptions: vec!["the harness decoder and encoder", "OpenSSL parses and verifies every forged CA certificate before it is used"],
 		subs: vec![
-			prop_sub("generated", 12_000, 700_000, || cert_case(IMPORT_OPTS, true), check_generated),
-			prop_sub("foreign", 6_000, 300_000, foreign_ca, check_foreign),
+			prop_sub("generated", 48_000, 700_000, || cert_case(IMPORT_OPTS, true), check_generated),
+			prop_sub("foreign", 24_000, 300_000, foreign_ca, check_foreign),
 		],
 	}
 }
